@@ -74,6 +74,9 @@ func genC04(t *rapid.T) C04Case {
 	lim := tierLimits()
 	lim.maxLeaves = 40
 	lim.maxBlocks = 6
+	if bigCase(t) {
+		lim.maxLeaves, lim.maxBlocks, lim.maxAdd = 700, 6, 300
+	}
 	c := C04Case{Map: genMapCfg(t, "map")}
 	f := &model.Forest{}
 	nb := rapid.IntRange(0, lim.maxBlocks).Draw(t, "nblocks")
